@@ -59,6 +59,16 @@ CLAIMED = {
             "bounded lattice (4x4 exhaustive, random to 60x60); floats sampled by 8 embeddings; the open sliver band of "
             "x/y_cuttable and last-bit ties of exact comparisons under inexact embeddings are left free as the statement does",
             "DESIGN.md 4 (C18)", ["Geometry", "GeometryOps", "GeometryTrace"]),
+    "C20": ("TLA+ spec Process (process-wide registers: Rectangle tolerance, ROBDD store, legaliser globals; one action per library "
+            "operation) model-checked by TLC; TLC-generated histories executed in forked interpreters; digests and register logs "
+            "trace-validated by TLC (ProcessTrace)",
+            "TLC proves NoLeak / EpsSetOnce / EpsOwnerIsFirstLoader on the register model for every history of length <= 3 over 7 operation "
+            "kinds x 5 scales, and every executed history (TLC-enumerated sample + random longer ones) is compared with the probe run alone "
+            "in a fresh fork: same canonical digest of the observable result for 7 probe kinds (netlist load incl. rejected ones, die "
+            "decomposition+split, allocation refinement, STOG recognition, SAT encoding projection, legaliser equation vector, STROP).",
+            "conservative reading of the factor-1000 band (every dimension pair); the result digest covers verdicts, numbers (exact repr), "
+            "region/cell sets, roles, CNF projection, equation-met vector; fresh interpreter = forked child of a parent that imported but never used FRAME",
+            "DESIGN.md 4 (C20)", ["Process", "ProcessTrace"]),
 }
 
 NOT_YET = "check not built yet in this round (planned, see DESIGN.md section 4); no claim is made"
